@@ -180,3 +180,31 @@ def run(ck: Checker):
             if gl and not is_name(method_of(gl[0])[0], hname):
                 probs.append(f'the level gate asks `{norm_text(method_of(gl[0])[0])}`, not `{hname}` — the logger the record names: records are let through or dropped by the level of the wrong logger (e.g. the library\'s own module logger)')
     ck.ob('C20-3', rl, (rl.node.lineno, '_run_logger'), not probs, '; '.join(probs) if probs else 'every dequeued record that is not the end marker is handled, gated only by the logger\'s effective level')
+    # ------------------------------------------------------------------ C20-4
+    ck.rule('C20-4', 'every process the library starts for user code forwards its log records: the worker processes of ProcessServlet are created with mpservice\'s Process (= SpawnProcess), the process pool defaults to MP_SPAWN_CTX, whose Process class is SpawnProcess (AGREE)', minimum=4)
+    from .common import FUTURES, MPINIT, SERVLET
+
+    cmod = ck.repo.module(CONTEXT)
+    sctx = cmod.cls('SpawnContext')
+    pa = [n for n in sctx.node.body if isinstance(n, ast.Assign) and any(is_name(t, 'Process') for t in n.targets)]
+    ok = len(pa) == 1 and is_name(pa[0].value, 'SpawnProcess')
+    ck.ob('C20-4', f'{cmod.rel}::SpawnContext', pa[0] if pa else (sctx.node.lineno, 'SpawnContext'), ok, 'SpawnContext.Process is SpawnProcess' if ok else 'SpawnContext does not create SpawnProcess objects: processes made through the context (process pools) do not forward their log records')
+    ctxs = [n for n in cmod.tree.body if isinstance(n, ast.Assign) and any(is_name(t, 'MP_SPAWN_CTX') for t in n.targets)]
+    ok = len(ctxs) == 1 and isinstance(ctxs[0].value, ast.Call) and is_name(ctxs[0].value.func, 'SpawnContext')
+    ck.ob('C20-4', f'{cmod.rel}::MP_SPAWN_CTX', ctxs[0] if ctxs else (1, 'MP_SPAWN_CTX'), ok, 'MP_SPAWN_CTX is a SpawnContext' if ok else 'MP_SPAWN_CTX is not an instance of mpservice\'s SpawnContext')
+    imod = ck.repo.module(MPINIT)
+    al = [n for n in imod.tree.body if isinstance(n, ast.Assign) and any(is_name(t, 'Process') for t in n.targets)]
+    ok = len(al) == 1 and is_name(al[0].value, 'SpawnProcess')
+    ck.ob('C20-4', f'{imod.rel}::Process', al[0] if al else (1, 'Process'), ok, 'mpservice.multiprocessing.Process is SpawnProcess' if ok else 'mpservice.multiprocessing.Process is not SpawnProcess')
+    smod = ck.repo.module(SERVLET)
+    imp = smod.imports.get('Process', '')
+    st = smod.cls('ProcessServlet').method('start')
+    mk = [n for n in walk_shallow_func(st.node) if isinstance(n, ast.Call) and (dotted(n.func) or '').split('.')[-1] in ('Process', 'SpawnProcess')]
+    ok = bool(mk) and all(dotted(n.func) in ('Process', 'SpawnProcess') for n in mk) and imp.startswith('mpservice.multiprocessing') or imp.startswith('..multiprocessing')
+    ck.ob('C20-4', st, mk[0] if mk else st.node, ok, f'worker processes are `{imp}` objects' if ok else f'ProcessServlet creates its workers with `{dotted(mk[0].func) if mk else "?"}` imported from `{imp or "?"}`: not mpservice\'s Process — their log records (and tracebacks) never reach the parent')
+    fmod = ck.repo.module(FUTURES)
+    pinit = fmod.cls('ProcessPoolExecutor').method('__init__')
+    dfl = [n for n in walk_shallow_func(pinit.node) if isinstance(n, ast.Assign) and any(is_name(t, 'mp_context') for t in n.targets)]
+    sup = [n for n in walk_shallow_func(pinit.node) if isinstance(n, ast.Call) and method_of(n)[1] == '__init__' and any(k.arg == 'mp_context' and is_name(k.value, 'mp_context') for k in n.keywords)]
+    ok = len(dfl) == 1 and is_name(dfl[0].value, 'MP_SPAWN_CTX') and bool(sup)
+    ck.ob('C20-4', pinit, dfl[0] if dfl else pinit.node, ok, 'the process pool defaults to MP_SPAWN_CTX and hands the context on' if ok else 'the process pool does not default to MP_SPAWN_CTX (or does not pass the context on): its workers are standard processes whose log records are lost')
